@@ -26,7 +26,7 @@ PairsOf(s) == {<<s[i][1], s[i][2]>> : i \in DOMAIN s}
 FunPairs(f) == {<<x, f[x]>> : x \in DOMAIN f}
 
 Matches(tr, st) ==
-  IF st.partial THEN TRUE            \* a partial final chunk is C06's subject (TdmsTruncate), not judged here
+  IF st.partial THEN tr.obs.partial  \* a partial final chunk is C06's subject (TdmsTruncate): only its presence is matched
   ELSE IF tr.obs.error THEN st.err
   ELSE
   /\ ~st.err
